@@ -48,3 +48,28 @@ def model_changes(f):
         elif isinstance(s, ast.Expr) and isinstance(s.value, ast.Call) and (call_name(s.value) or "") in ("self.models.append", "self.models.insert", "self.models.extend"):
             out.append((s, f"`{src(s)[:70]}`"))
     return out
+
+
+def passing_nodes(prog, K, f, fa, pred, _seen=None):
+    """CFG nodes of f (a method executed on an instance of class K) that satisfy `pred(stmt)` themselves, or call a
+    method `self.m(...)` whose implementation *for K* (resolved through K's MRO, so overrides count) passes such a
+    statement on every one of its normal paths."""
+    _seen = _seen or {f.qual}
+    out = list(fa.find(pred))
+    for nid, c in fa.find_expr(lambda e: isinstance(e, ast.Call) and isinstance(e.func, ast.Attribute) and isinstance(e.func.value, ast.Name) and e.func.value.id == "self"):
+        g = prog.find_method(K, c.func.attr)
+        if g is None or g.qual in _seen or g.is_property:
+            continue
+        ga = FA(g)
+        via = passing_nodes(prog, K, g, ga, pred, _seen | {g.qual})
+        if via and ga.cfg.every_exit_path_passes(ga.cfg.entry, via):
+            out.append(nid)
+    for nid, c in fa.find_expr(lambda e: isinstance(e, ast.Call) and isinstance(e.func, ast.Attribute) and isinstance(e.func.value, ast.Call) and isinstance(e.func.value.func, ast.Name) and e.func.value.func.id == "super"):
+        g = prog.find_method(K, c.func.attr, after=f.cls) if f.cls is not None else None
+        if g is None or g.qual in _seen:
+            continue
+        ga = FA(g)
+        via = passing_nodes(prog, K, g, ga, pred, _seen | {g.qual})
+        if via and ga.cfg.every_exit_path_passes(ga.cfg.entry, via):
+            out.append(nid)
+    return sorted(set(out))
